@@ -84,6 +84,7 @@ class Model:
         self.guard_false_seen = False
         self.dists = None
         self.track_paths = False
+        self.params = {}  # optional values for symbolic parameters (name -> Poly), e.g. abstracted probabilities
 
     # -- helpers ----------------------------------------------------------------------------------
     def lookup(self, state, v):
@@ -91,6 +92,8 @@ class Model:
             return state[v]
         if v in self.vars:
             return Poly.var(v + "0")
+        if v in self.params:
+            return self.params[v]
         return Poly.var(v)  # symbolic parameter
 
     def ev(self, poly, state):
@@ -135,6 +138,70 @@ class Model:
         if isinstance(c, L.Not):
             return not self.cond(c.a, state)
         raise NotApplicable("condition %r" % c)
+
+    # -- conditions that mention one uniform atom: split into the event and its complement -----------------
+    def cond_split(self, c, state):
+        """-> list of (truth, probability Poly, state).  Numeric conditions give one entry.  A comparison whose two
+        sides differ by alpha + beta*A with A a Uniform(0,1) atom (alpha, beta rational) splits the state: on each side A
+        is replaced by the conditioned (again uniform) variable  lo + (hi-lo)*A'  with a fresh standard atom A'."""
+        if isinstance(c, (L.TrueC, L.FalseC)):
+            return [(isinstance(c, L.TrueC), ONE, state)]
+        if isinstance(c, L.Atom):
+            d = self.ev(c.lhs, state) - self.ev(c.rhs, state)
+            if d.is_const():
+                return [(self.cond(c, state), ONE, state)]
+            vs = d.variables()
+            if len(vs) != 1:
+                raise NotApplicable("condition over %s" % sorted(vs))
+            a = next(iter(vs))
+            info = self.atoms.get(a)
+            if info is None or info.kind != "U" or d.degree() != 1:
+                raise NotApplicable("condition over a non-uniform or non-affine value")
+            beta = d.t.get(((a, 1),), Fraction(0))
+            alpha = d.t.get((), Fraction(0))
+            if len(d.t) > 2 or beta == 0:
+                raise NotApplicable("condition not affine in one atom")
+            t = -alpha / beta  # alpha + beta*A cop 0
+            op = c.cop
+            if beta < 0:
+                op = {"<": ">", "<=": ">=", ">": "<", ">=": "<=", "==": "==", "/=": "/="}[op]
+            t = min(max(t, Fraction(0)), Fraction(1))
+            lo_name = self._cond_atom(a, "lo", t)
+            hi_name = self._cond_atom(a, "hi", t)
+            low = (Poly.const(t) * Poly.var(lo_name), Poly.const(t))            # A | A < t  = t*A'
+            high = (Poly.const(t) + Poly.const(1 - t) * Poly.var(hi_name), Poly.const(1 - t))  # A | A > t
+            if op in ("<", "<="):
+                parts = [(True,) + low, (False,) + high]
+            elif op in (">", ">="):
+                parts = [(False,) + low, (True,) + high]
+            elif op == "==":
+                parts = [(False,) + low, (False,) + high]
+            else:
+                parts = [(True,) + low, (True,) + high]
+            out = []
+            for truth, repl, pr in parts:
+                if pr.is_zero():
+                    continue
+                self.transitions += 1
+                st2 = {v: (p.subs({a: repl}) if a in p.variables() else p) for v, p in state.items()}
+                out.append((truth, pr, st2))
+            return out
+        if isinstance(c, L.Not):
+            return [(not tr, pr, st) for tr, pr, st in self.cond_split(c.a, state)]
+        if isinstance(c, (L.And, L.Or)):
+            out = []
+            for tr1, p1, st1 in self.cond_split(c.a, state):
+                for tr2, p2, st2 in self.cond_split(c.b, st1):
+                    out.append(((tr1 and tr2) if isinstance(c, L.And) else (tr1 or tr2), p1 * p2, st2))
+            return out
+        raise NotApplicable("condition %r" % c)
+
+    def _cond_atom(self, a, side, t):
+        name = "%s~%s%s" % (a, side, hashlib.md5(str(t).encode()).hexdigest()[:6])
+        if name not in self.atoms:
+            o = self.atoms[a].order
+            self.atoms[name] = AtomInfo(o, "U", ())
+        return name
 
     def new_atom(self, n, sid, idx, kind, params):
         key = hashlib.md5(repr([p.key() for p in params]).encode()).hexdigest()[:8]
@@ -211,12 +278,23 @@ class Model:
 
     def exec_stmt(self, s, state, prob, n, path):
         if isinstance(s, L.If):
+            pending = [(state, prob)]
+            results = []
             for c, b in zip(s.conds, s.branches):
-                if self.cond(c, state):
-                    return self.exec_stmts(b, state, prob, n, path)
-            if s.else_branch is not None:
-                return self.exec_stmts(s.else_branch, state, prob, n, path)
-            return [(state, prob, path)]
+                nxt = []
+                for st, pr in pending:
+                    for truth, p, st2 in self.cond_split(c, st):
+                        if truth:
+                            results.extend(self.exec_stmts(b, st2, pr * p, n, path))
+                        else:
+                            nxt.append((st2, pr * p))
+                pending = nxt
+            for st, pr in pending:
+                if s.else_branch is not None:
+                    results.extend(self.exec_stmts(s.else_branch, st, pr, n, path))
+                else:
+                    results.append((st, pr, path))
+            return results
         # assignment (possibly simultaneous): all right-hand sides read the old state
         combos = [((), prob, path)]
         for idx, rhs in enumerate(s.rhss):
@@ -265,11 +343,12 @@ class Model:
         outs = []
         for st, pr in dist.values():
             self.transitions += 1
-            if self.cond(self.prog.guard, st):
-                outs.extend(self.exec_stmts(self.prog.body, st, pr, n, ()))
-            else:
-                self.guard_false_seen = True
-                outs.append((st, pr, ()))
+            for truth, p, st2 in self.cond_split(self.prog.guard, st):
+                if truth:
+                    outs.extend(self.exec_stmts(self.prog.body, st2, pr * p, n, ()))
+                else:
+                    self.guard_false_seen = True
+                    outs.append((st2, pr * p, ()))
         d = self._merge(outs)
         if len(d) > self.max_states:
             raise CapHit("more than %d states at depth %d" % (self.max_states, n + 1))
